@@ -167,6 +167,7 @@ type Spec struct {
 
 // Session is a running simulation.
 type Session struct {
+	promptArmed bool // the next run of the prompt function is the first of a Readline call
 	Spec *Spec
 	Out  *Outcome
 	Sh   *readline.Shell
@@ -459,8 +460,27 @@ func (s *Session) event(format string, a ...any) {
 }
 
 // Readline calls Shell.Readline and records the return.
+// promptPoint is called by the application's prompt function (the harness's closure): the first time it runs in a
+// Readline call is a scheduling point of its own, "app.prompt.first" -- the library is inside its start-up there.
+func promptPoint() {
+	s := cur.Load()
+	if s == nil {
+		return
+	}
+	s.mu.Lock()
+	armed := s.promptArmed
+	s.promptArmed = false
+	s.mu.Unlock()
+	if armed {
+		s.yield("app.prompt.first")
+	}
+}
+
 func (s *Session) Readline(sh *readline.Shell) (string, error) {
 	s.calls++
+	s.mu.Lock()
+	s.promptArmed = true
+	s.mu.Unlock()
 	line, err := sh.Readline()
 	e := ""
 	if err != nil {
